@@ -331,9 +331,43 @@ class C08(Prop):
         g.emit(ev)
 
     def _g_motif(self, g, w, d):
-        if g.r.random() < 0.5:
+        c = g.r.random()
+        if c < 0.4:
             return self._g_motif_idreuse(g, w, d)
+        if c < 0.6:
+            return self._g_motif_stale_count(g, w, d)
         return self._g_motif_buffer(g, w, d)
+
+    def _g_motif_stale_count(self, g, w, d):
+        """fault-placement motif (biasing, not an oracle): an array dies while operations still
+        count it (a tensor's memory replaced by an in-place update between two clears), and the very
+        next array the lock tables meet is a natively read-only caller array - under LIFO id reuse it
+        inherits the dead array's id together with whatever was left behind under it."""
+        if d > 0 or not g.tracking:
+            return
+        r = g.r
+        n = r.choice([0, 0, 1, 2, 3])
+        shape = () if n == 0 else (n,)
+        a = g.arr(shape=shape, dtype=r.choice(["f8", "f4"]), ro=True)
+        hs = [g.new_h() for _ in range(6)]
+        x, v3, v4, t6, x9, t10 = hs
+        g.emit({"k": "wrap", "out": x, "src": a, "how": "tensor_copy", "constant": r.choice([None, True])})
+        if n == 0:
+            g.emit({"k": "op", "op": "atleast_1d", "out": v3, "args": [{"t": x}], "p": {}, "spell": "f"})
+        else:
+            g.emit({"k": "op", "op": "reshape", "out": v3, "args": [{"t": x}], "p": {"shape": [n], "splat": False}, "spell": "f"})
+        g.emit({"k": "op", "op": "getitem", "out": v4, "args": [{"t": v3}], "p": {"index": enc_index(slice(0, None, None))}, "spell": "f"})
+        g.emit({"k": "op", "op": r.choice(["cumsum", "neg", "square"]), "out": t6, "args": [{"t": v3}], "p": ({"axis": -1}), "spell": "f"})
+        g.emit({"k": "clear", "tgt": v3})
+        g.emit({"k": "inplace", "form": "setitem", "tgt": v3, "index": enc_index(slice(0, None, 2)), "args": [{"t": v4}]})
+        g.emit({"k": "clear", "tgt": v3})
+        g.emit({"k": "wrap", "out": x9, "src": a, "how": r.choice(["Tensor_nocopy", "tensor_nocopy", "astensor"]), "constant": None})
+        g.emit({"k": "op", "op": "mul", "out": t10, "args": [{"t": x9}, {"c": 2.0}], "p": {}, "spell": "f"})
+        order = [t10, x9, t6, v4, v3, x]
+        if r.random() < 0.5:
+            r.shuffle(order)
+        for h in order:
+            g.emit({"k": "drop", "kind": "T", "h": h, "cycle": False})
 
     def _g_motif_buffer(self, g, w, d):
         """the pre-allocated-buffer pattern: several out= targets that are views of one caller
